@@ -1,11 +1,95 @@
-import PcfgVerif.Lemmas.Adopt
-import PcfgVerif.Lemmas.AdoptOrder
-import PcfgVerif.Lemmas.Best
-import PcfgVerif.Model.GridSpec
-/-! C08 — placeholder until the refinement proof lands: abstract core only. -/
-namespace Pcfg.C08
+import PcfgVerif.Properties.PQCore
+/-!
+# C08 — resuming a saved session loses nothing and repeats at most the tied group
 
-theorem abstract_exhaustive {α : Type} [DecidableEq α] (S : Adopt.Sys α) (s : Adopt.St α)
-    (h : Adopt.Inv S s) (hq : s.queue = []) : s.popped.Perm S.all := Adopt.exhausted_perm S s h hq
+The whole saved state of the queue is the pair (`min_probability`, `max_probability`); the session
+saves `max_probability` = probability of the pre-terminal that was popped but not generated.  So
+every quit/resume history reduces to: restart from `restoreNodes g m mn`.  `mn` is `0.0` in the code
+and never changes (`hmin`: nothing is below it).
+-/
+namespace Pcfg.C08
+variable {P : Type} [Inhabited P]
+
+/-- a resumed run emits exactly the nodes whose probability is ≤ the saved value: each once (also in
+every intermediate state), nothing above the saved position, in non-increasing order -/
+theorem C08_resume (A : PAlg P) (g : Grid P) (hwf : WF A.toPOps g) (m mn : P)
+    (hmin : ∀ v, ValidNode g v → A.lt (nodeProb A.toPOps g v) mn = false)
+    (s : PQState) (h : Reach A.toPOps g (restoreNodes A.toPOps g m mn) s) :
+    (s.popped ++ s.queue).Nodup ∧
+    NonIncreasing A.toPOps g s.popped ∧
+    (∀ v ∈ s.popped ++ s.queue, ValidNode g v ∧ A.le (nodeProb A.toPOps g v) m = true) ∧
+    (s.queue = [] → s.popped.Perm ((allNodes g).filter fun v => A.le (nodeProb A.toPOps g v) m)) :=
+  pq_resume A g hwf m mn hmin s h
+
+/-- nothing is lost: everything the uninterrupted run `u` emits from position `k` on is emitted by
+the run resumed from `m = prob (u.popped[k])` -/
+theorem C08_nothing_lost (A : PAlg P) (g : Grid P) (hwf : WF A.toPOps g) (mn : P)
+    (hmin : ∀ v, ValidNode g v → A.lt (nodeProb A.toPOps g v) mn = false)
+    (u : PQState) (hu : Reach A.toPOps g (initNodes g) u)
+    (k : Nat) (x : Node) (hx : u.popped[k]? = some x)
+    (r : PQState) (hr : Reach A.toPOps g (restoreNodes A.toPOps g (nodeProb A.toPOps g x) mn) r)
+    (hdone : r.queue = [])
+    (j : Nat) (hj : k ≤ j) (y : Node) (hy : u.popped[j]? = some y) : y ∈ r.popped := by
+  have hord := pq_order A g hwf u hu
+  have hvalid := (pq_exactly_once A g hwf u hu).2.1
+  have hperm := (pq_resume A g hwf _ mn hmin r hr).2.2.2 hdone
+  have hymem : y ∈ u.popped := List.mem_of_getElem? hy
+  have hle : A.le (nodeProb A.toPOps g y) (nodeProb A.toPOps g x) = true := by
+    by_cases hjk : j = k
+    · subst hjk
+      rw [hx] at hy
+      cases hy
+      exact A.le_refl _
+    · have hlt : k < j := by omega
+      have hk' : k < u.popped.length := by
+        rcases List.getElem?_eq_some_iff.mp hx with ⟨h, _⟩; exact h
+      have hj' : j < u.popped.length := by
+        rcases List.getElem?_eq_some_iff.mp hy with ⟨h, _⟩; exact h
+      have := List.pairwise_iff_getElem.mp hord k j hk' hj' hlt
+      rcases List.getElem?_eq_some_iff.mp hx with ⟨_, ex⟩
+      rcases List.getElem?_eq_some_iff.mp hy with ⟨_, ey⟩
+      rw [ex, ey] at this
+      exact this
+  have : y ∈ (allNodes g).filter fun v => A.le (nodeProb A.toPOps g v) (nodeProb A.toPOps g x) := by
+    rw [List.mem_filter]
+    refine ⟨(mem_allNodes g y).mpr (hvalid y (List.mem_append_left _ hymem)), hle⟩
+  exact hperm.symm.subset this
+
+/-- the only repeats are pre-terminals tied with the saved position: a node emitted before position
+`k` that the resumed run touches again has probability equal to the saved one -/
+theorem C08_repeats_only_tied (A : PAlg P) (g : Grid P) (hwf : WF A.toPOps g) (mn : P)
+    (hmin : ∀ v, ValidNode g v → A.lt (nodeProb A.toPOps g v) mn = false)
+    (u : PQState) (hu : Reach A.toPOps g (initNodes g) u)
+    (k : Nat) (x : Node) (hx : u.popped[k]? = some x)
+    (r : PQState) (hr : Reach A.toPOps g (restoreNodes A.toPOps g (nodeProb A.toPOps g x) mn) r)
+    (i : Nat) (hi : i < k) (y : Node) (hy : u.popped[i]? = some y) (hyr : y ∈ r.popped ++ r.queue) :
+    A.eqv (nodeProb A.toPOps g y) (nodeProb A.toPOps g x) = true := by
+  have hord := pq_order A g hwf u hu
+  have hle := ((pq_resume A g hwf _ mn hmin r hr).2.2.1 y hyr).2
+  have hk' : k < u.popped.length := by
+    rcases List.getElem?_eq_some_iff.mp hx with ⟨h, _⟩; exact h
+  have hi' : i < u.popped.length := by omega
+  have := List.pairwise_iff_getElem.mp hord i k hi' hk' hi
+  rcases List.getElem?_eq_some_iff.mp hx with ⟨_, ex⟩
+  rcases List.getElem?_eq_some_iff.mp hy with ⟨_, ey⟩
+  rw [ex, ey] at this
+  simp [POps.eqv, hle, this]
+
+omit [Inhabited P] in
+/-- the comparison operators the proof depends on, as they stand in the source today
+(`is_parent_around` must use `<=`: with `<` a child of the re-emitted saved node is restored twice) -/
+theorem C08_operators (O : POps P) (a b : P) :
+    (Generated.PQ.ipaBody O 1 a b = some true ↔ O.le a b = true) ∧
+    (Generated.PQ.restoreGuard O a b b false = .save ↔ (O.lt a b = false ∧ O.le a b = true)) := by
+  constructor
+  · simp only [Generated.PQ.ipaBody, POps.cmp, CmpOp.nat]
+    by_cases h : O.le a b = true <;> simp [h]
+  · simp only [Generated.PQ.restoreGuard, POps.cmp]
+    by_cases h1 : O.lt a b = true <;> by_cases h2 : O.le a b = true <;> simp [h1, h2]
+
+/-- non-vacuity: resuming the tied 2×2 grid at probability 64 re-emits both tied nodes and their child -/
+example : Pcfg.Example.finalR.popped.Perm
+    ((allNodes Pcfg.Example.g0).filter fun v => natAlg.le (nodeProb natAlg.toPOps Pcfg.Example.g0 v) 64) :=
+  (C08_resume natAlg _ Pcfg.Example.wf0 64 0 Pcfg.Example.hmin0 _ Pcfg.Example.reachR).2.2.2 rfl
 
 end Pcfg.C08
